@@ -174,7 +174,8 @@ def build(case, parts=False):
     src = case["src"]
     if case.get("nest"):
         # replace the first sentinel argument by a nested wrapper call
-        src = src.replace("F('s1')", case["nest"].replace("s1", "n1").replace("s2", "n2").replace("s3", "n3"), 1)
+        import re as _re
+        src = src.replace("F('s1')", _re.sub(r"F\('s(\d+)'\)", r"F('n\1')", case["nest"]), 1)   # every sentinel of the nested wrapper is renamed
     cl = case["clauses"]
     chain = ""
     if "distinct" in cl:
